@@ -61,8 +61,13 @@ func (srv *Server) Serve(listen chan error) error {
 	srv.logger.Debug("Unix socket is listening", "addr", srv.addr)
 
 	defer func() {
+		// Closing the listener unlinks the socket file. The path must not be
+		// removed again from here: this goroutine may get to run after
+		// Shutdown has returned to its caller, when the next run of the DAG
+		// has already bound the same address, and would take that run's
+		// socket away (a run that nobody can reach is reported as not
+		// running and cannot be stopped).
 		_ = srv.Shutdown()
-		_ = os.Remove(srv.addr)
 	}()
 	for {
 		conn, err := srv.listener.Accept()
